@@ -289,6 +289,107 @@ def connectives(chk, facts):
             chk.ob(rule, "%s:%s:defined" % (which, fn_), okg, "%s::%s is undefined exactly when its first operand is (if_some on T1): %s" % (which, fn_, okg), where=f.where(), fn=f.name)
 
 
+def _sat_predicates(f):
+    """[(constant compared with, negated?)] for every factory eq(_, some_of(<bool>)) in f"""
+    out = []
+    L = shape.Labels(f, None, None, call_labels=lambda c, t: ["EQ"] if c.split("::")[-1] == "eq" and ("factory" in c or "term_factory" in c) else None)
+    nots = [t for _, t in f.calls() if callee(t).split("::")[-1] == "not" and ("factory" in callee(t)) and "EQ" in L.operand_labels(t[2][0])]
+    for b, t in f.calls():
+        c = callee(t)
+        if c.split("::")[-1] == "eq" and "factory" in c and len(t[2]) >= 2:
+            k = _bool_const(f, t[2][1])
+            if k is None:
+                k = _bool_const(f, t[2][0])
+            out.append((k, bool(nots)))
+    return out
+
+
+def authorizer(chk, facts):
+    """The symbolic authorizer: allowed = (some permit is some(true)) and not (some forbid is some(true)); a singleton permit set
+    allows iff the policy is some(true) — an erroring (none) policy is not satisfied, as in the concrete authorizer."""
+    rule = "C18.AUTH"
+    SY = "cedar_policy_symcc::"
+    for mod in ("symcc::authorizer::", "symccopt::authorizer::"):
+        f = facts.fn(SY + mod + "is_authorized")
+        if f is None:
+            chk.lost(rule, SY + mod + "is_authorized")
+            continue
+        chk.functions.add(f.name)
+        eff = facts.adts.get("cedar_policy_core::ast::policy::Effect")
+        # which effect feeds which side
+        calls = [(b, t) for b, t in f.calls() if callee(t).endswith("authorizer::satisfied_policies")]
+        side = {}
+        for b, t in calls:
+            o = t[2][0]
+            v = None
+            if o[0] == "k":
+                v = o[1].get("v")
+            else:
+                for bb, s_ in f.stmts():
+                    if s_[0] == "a" and s_[1] == o[1] and s_[2][0] == "agg" and s_[2][1][0] == "adt":
+                        v = s_[2][1][2]
+            side[t[3][0]] = v
+        L = shape.Labels(f, None, lambda p: ["R%d" % p[0]] if p[0] in side else [])
+        ands = [(b, t) for b, t in f.calls() if callee(t).split("::")[-1] == "and" and "factory" in callee(t)]
+        nots = [(b, t) for b, t in f.calls() if callee(t).split("::")[-1] == "not" and "factory" in callee(t)]
+        ok = False
+        det = "no and(permits, not(forbids))"
+        if len(ands) == 1 and len(nots) == 1:
+            neg_src = {side.get(int(x[1:])) for x in L.operand_labels(nots[0][1][2][0]) if x.startswith("R")}
+            a0 = {side.get(int(x[1:])) for x in L.operand_labels(ands[0][1][2][0]) if x.startswith("R")}
+            ok = neg_src == {"Forbid"} and a0 == {"Permit"}
+            det = "and(%s, not(%s))" % (sorted(map(str, a0)), sorted(map(str, neg_src)))
+        chk.ob(rule, mod + "is_authorized", ok, "symbolic decision term is %s; required and(permits, not(forbids))" % det, where=f.where(), fn=f.name, key="%s:%sis_authorized" % (rule, mod))
+        g = facts.fn(SY + mod + "satisfied_policies")
+        if g is None:
+            chk.lost(rule, SY + mod + "satisfied_policies")
+            continue
+        preds = []
+        for body in [g] + facts.closures_of(g.name):
+            preds += _sat_predicates(body)
+        okp = preds == [(1, False)]
+        chk.ob(rule, mod + "satisfied", okp, "a policy counts as satisfied iff its term equals some(true) (found %s)" % preds, where=g.where(), fn=g.name, key="%s:%ssatisfied" % (rule, mod))
+    h = facts.fn(SY + "symccopt::compiled_policies::CompiledPolicy::into_compiled_policyset")
+    if h is None:
+        chk.lost(rule, "CompiledPolicy::into_compiled_policyset")
+    else:
+        chk.functions.add(h.name)
+        preds = _sat_predicates(h)
+        chk.ob(rule, "singleton", preds == [(1, False)], "a singleton permit set allows iff the policy's term equals some(true) — the same predicate as satisfied_policies (found %s)" % preds, where=h.where(), fn=h.name,
+               key="%s:singleton" % rule)
+
+
+def typed_sets(chk, facts):
+    """SymEntityData::of_action_type: the ancestor function for ancestor type A maps an action to the set of its ancestors OF TYPE A:
+    every typed set term is filtered by its own element type, and every function table agrees with its declared argument / result types."""
+    from lib import xlabels
+    rule = "C18.ENV"
+    name = "cedar_policy_symcc::symcc::env::SymEntityData::of_action_type"
+    f = get_fn(chk, facts, rule, name)
+    if f is None:
+        return
+    n = 0
+    for g, L in xlabels.bodies_with_labels(facts, f, None, param_labels={1: {"ACT"}, 2: {"ANCS"}}):
+        for b, s_ in g.stmts():
+            if s_[0] != "a" or s_[2][0] != "agg" or s_[2][1][0] != "adt":
+                continue
+            adt, var, names = s_[2][1][1], s_[2][1][2], s_[2][1][3]
+            labs = {nm: {x for x in L.operand_labels(o) if x in ("ACT", "ANCS")} for nm, o in zip(names or [], s_[2][2])}
+            if adt.endswith("term::Term") and var == "Set":
+                if labs.get("elts"):
+                    n += 1
+                    ok = labs["elts"] == labs.get("elts_ty")
+                    chk.ob(rule, "set@%s:L%s" % (g.name.split("::")[-1], s_[3]), ok, "a set term of element type <%s> is filled with elements selected by type <%s>" % ("/".join(sorted(labs.get("elts_ty", []))), "/".join(sorted(labs["elts"]))),
+                           where=g.where(s_[3]), fn=g.name, key="%s:set:%s" % (rule, g.name.split("::")[-1]))
+            if adt.endswith("function::Udf"):
+                if labs.get("out") or labs.get("default"):
+                    n += 1
+                    ok = labs.get("out") == labs.get("default") and labs.get("arg", set()) <= labs.get("table", set()) | labs.get("arg", set()) and (not labs.get("table") or labs.get("out", set()) <= labs["table"])
+                    chk.ob(rule, "udf@%s:L%s" % (g.name.split("::")[-1], s_[3]), ok, "function table: arg <%s>, out <%s>, default <%s>, entries <%s>" % tuple("/".join(sorted(labs.get(k, []))) for k in ("arg", "out", "default", "table")),
+                           where=g.where(s_[3]), fn=g.name, key="%s:udf:%s" % (rule, g.name.split("::")[-1]))
+    chk.floor(rule, "typed terms in of_action_type", n, 2)
+
+
 def run(chk, facts, tier):
     facts.load_crate("cedar_policy_symcc.lib")
     facts.load_crate("cedar_policy_core.lib")
@@ -302,3 +403,5 @@ def run(chk, facts, tier):
     app1(chk, facts)
     compile_arms(chk, facts)
     connectives(chk, facts)
+    authorizer(chk, facts)
+    typed_sets(chk, facts)
